@@ -1,7 +1,7 @@
 #!/bin/bash
 # regression over all stored seeds: each patch against the check of its own property; prints one line per seed
 cd /verif
-for d in seeded/*/; do
+for d in seeded/${SEEDALL_FILTER:-}*/; do
   name=$(basename $d)
   prop=$(python3 -c "import json;print(json.load(open('$d/meta.json')).get('property','?').split(',')[0])")
   [ -f $d/patch.diff ] || continue
